@@ -49,73 +49,6 @@ theorem ilu_fold_spec (permr perm : Array Nat) (i : Nat) (hi : i < perm.size) :
 
 /-! ### the pivot policy never fails -/
 
-theorem rabs_add_sgn (v d : Rat) (hd : 0 ≤ d) : rabs (v + sgnR v * d) = rabs v + d := by
-  simp only [rabs_eq_abs]
-  unfold sgnR
-  by_cases hv : v ≥ 0
-  · simp only [hv, if_true, one_mul]
-    rw [abs_of_nonneg (by linarith), abs_of_nonneg hv]
-  · simp only [hv, if_false]
-    have hv' : v < 0 := not_le.mp hv
-    rw [abs_of_neg (by linarith), abs_of_neg hv']
-    ring
-
-theorem testMag_eq (milu : Milu) (ds v : Rat) :
-    testMag milu ds ds v = (if milu.absVariant = true then scanMag milu ds v + ds else scanMag milu ds v) := by
-  cases milu <;> simp [testMag, scanMag, Milu.absVariant]
-
-theorem reset_ne_zero (milu : Milu) (ds v : Rat) (hds : milu.absVariant = true → 0 ≤ ds)
-    (h : testMag milu ds ds v ≠ 0) :
-    (match milu with
-      | Milu.silu => v
-      | Milu.smilu1 => v + ds
-      | _ => v + sgnR v * ds) ≠ 0 := by
-  cases milu
-  · simp only [testMag, Mag.abs1] at h
-    intro hv; dsimp only at hv; apply h; rw [hv]; rfl
-  · simp only [testMag, Mag.abs1] at h
-    intro hv; dsimp only at hv; apply h; rw [hv]; rfl
-  · simp only [testMag, Mag.abs1] at h
-    intro hv; dsimp only at hv
-    have := rabs_add_sgn v ds (hds rfl)
-    rw [hv] at this
-    apply h; rw [← this]; rfl
-  · simp only [testMag, Mag.abs1] at h
-    intro hv; dsimp only at hv
-    have := rabs_add_sgn v ds (hds rfl)
-    rw [hv] at this
-    apply h; rw [← this]; rfl
-
-/-- the position chosen by the policy lies inside the column and passes the nonzero test -/
-theorem choosePtr_spec (inp : PivIn Rat Rat) (pm : Rat) (hpos : 0 < pm)
-    (hpm : (if inp.milu.absVariant = true then (scan inp).pivmax + inp.dropSum else (scan inp).pivmax) = pm)
-    (hlen : 0 < inp.cands.length) (inv : ScanInv inp inp.cands.length (scan inp))
-    (h2 : (scan inp).pivptr < inp.cands.length) (h3 : magAt inp (scan inp).pivptr = (scan inp).pivmax) :
-    (choosePtr inp inp.dropSum (scan inp) pm).1 < inp.cands.length ∧
-    testMag inp.milu inp.dropSum inp.dropSum (inp.cands[(choosePtr inp inp.dropSum (scan inp) pm).1]!).val ≠ 0 := by
-  have hpiv : testMag inp.milu inp.dropSum inp.dropSum (inp.cands[(scan inp).pivptr]!).val ≠ 0 := by
-    rw [testMag_eq]
-    have : scanMag inp.milu inp.dropSum (inp.cands[(scan inp).pivptr]!).val = (scan inp).pivmax := h3
-    rw [this, hpm]
-    exact ne_of_gt hpos
-  unfold choosePtr
-  simp only []
-  split
-  · rename_i hr
-    simp only [Bool.and_eq_true, Bool.not_eq_true', beq_eq_false_iff_ne, decide_eq_true_eq] at hr
-    refine ⟨?_, hr.1.2⟩
-    cases ho : (scan inp).oldPtr with
-    | none => simpa using hlen
-    | some d => simpa using inv.old_lt d ho
-  · split
-    · rename_i d hd
-      split
-      · rename_i hr
-        simp only [Bool.and_eq_true, Bool.not_eq_true', beq_eq_false_iff_ne, decide_eq_true_eq] at hr
-        exact ⟨inv.diag_lt d hd, hr.1⟩
-      · exact ⟨h2, hpiv⟩
-    · exact ⟨h2, hpiv⟩
-
 /-- **C15 (the pivot policy is total).** `ilu_[sd]pivotL` in exact arithmetic, every MILU variant,
 any threshold `u`, with or without a remembered pivot: whenever the column has an eligible candidate
 row (a row that does not belong to a later relaxed supernode) — and `drop_sum ≥ 0` in the variants
@@ -159,10 +92,77 @@ theorem ilu_pivot_total (inp : PivIn Rat Rat) (hfill : 0 < inp.fillTol)
     · have hpos : 0 < pm := lt_of_le_of_ne hpm0 (Ne.symm hz)
       have hbeq : (pm == 0) = false := by simpa using hz
       simp only [hbeq, Bool.false_eq_true, if_false]
-      have hcp := choosePtr_spec inp pm hpos hpm hlen inv h2 h3
+      have hcp := choosePtr_spec inp inp.dropSum pm hpos hpm hlen inv h2 h3
       refine ⟨_, rfl, hcp.1, ?_, Or.inl trivial⟩
       exact reset_ne_zero inp.milu inp.dropSum _ (fun hm => hds (by
         cases hmi : inp.milu <;> simp [hmi, Milu.absVariant] at hm ⊢)) hcp.2
+
+/-- **C15 (the pivot policy is total, complex routines).** `ilu_[cz]pivotL` in exact arithmetic over the
+Gaussian rationals, for EVERY function `t` standing for the modulus `z_abs` used by `z_sgn` that is
+non-negative and vanishes only at zero: every MILU variant, any threshold, with or without a remembered
+pivot; whenever the column has an eligible candidate row — and, in the variants where `drop_sum` is a
+sum of magnitudes, `drop_sum = d + 0i` with `d ≥ 0` — the routine returns a pivot position inside the
+column, the value it leaves at the pivot is NONZERO (the SMILU_2/3 reset adds `z_sgn(pivot) * drop_sum`,
+which cannot cancel the pivot), and either the return value is 0, or it is `jcol+1` and the pivot holds
+the replacement value `fill_tol + 0i`. -/
+theorem ilu_pivot_total_complex (t : Cx Rat → Rat) (ht0 : ∀ z, 0 ≤ t z) (ht : ∀ z, t z = 0 ↔ z = 0)
+    (inp : PivIn (Cx Rat) Rat) (hfill : 0 < inp.fillTol)
+    (hds : inp.milu = Milu.smilu2 ∨ inp.milu = Milu.smilu3 → 0 ≤ inp.dropSum.re ∧ inp.dropSum.im = 0)
+    (hc : ∃ k, k < inp.cands.length ∧ (inp.cands[k]!).elig = true) :
+    ∃ p, (complexPivot t inp).pos = some p ∧ p < inp.cands.length ∧ (complexPivot t inp).pivVal ≠ 0 ∧
+      ((complexPivot t inp).ret = 0 ∨
+        ((complexPivot t inp).ret = inp.jcol + 1 ∧ (complexPivot t inp).pivVal = ⟨inp.fillTol, 0⟩)) := by
+  have inv := scanInv_scanTo inp inp.cands.length
+  rw [← scan_eq_scanTo] at inv
+  obtain ⟨k0, hk0, hel⟩ := hc
+  have hlen : 0 < inp.cands.length := by omega
+  have hfne : (⟨inp.fillTol, 0⟩ : Cx Rat) ≠ 0 := by
+    intro hc
+    have := congrArg Cx.re hc
+    simp only [Cx.zero_def] at this
+    linarith
+  have habs : inp.milu.absVariant = true → 0 ≤ inp.dropSum.re ∧ inp.dropSum.im = 0 := fun hm => hds (by
+    cases hmi : inp.milu <;> simp [hmi, Milu.absVariant] at hm ⊢)
+  rcases inv.alt with ⟨_, _, h3⟩ | ⟨h1, h2, h3, p0, h4, h5⟩
+  · have := h3 k0 hk0; unfold eligAt at this; rw [hel] at this; cases this
+  · have hpm0 : 0 ≤ (if inp.milu.absVariant = true then (scan inp).pivmax + inp.dropSum.re else (scan inp).pivmax) := by
+      split
+      · rename_i hm
+        have := (habs hm).1
+        linarith
+      · exact h1
+    unfold complexPivot iluPivotChoice
+    simp only []
+    generalize hpm : (if inp.milu.absVariant = true then (scan inp).pivmax + inp.dropSum.re else (scan inp).pivmax) = pm at hpm0 ⊢
+    rw [if_neg (not_lt.mpr hpm0)]
+    by_cases hz : pm = 0
+    · subst hz
+      simp only [beq_self_eq_true, if_true]
+      cases hd : (scan inp).diag with
+      | some d =>
+        simp only []
+        exact ⟨d, by simp, inv.diag_lt d hd, hfne, Or.inr ⟨by simp, by simp⟩⟩
+      | none =>
+        simp only [h4]
+        exact ⟨p0, by simp, h5, hfne, Or.inr ⟨by simp, by simp⟩⟩
+    · have hpos : 0 < pm := lt_of_le_of_ne hpm0 (Ne.symm hz)
+      have hbeq : (pm == 0) = false := by simpa using hz
+      simp only [hbeq, Bool.false_eq_true, if_false]
+      have hcp := choosePtr_spec inp inp.dropSum.re pm hpos hpm hlen inv h2 h3
+      refine ⟨_, rfl, hcp.1, ?_, Or.inl trivial⟩
+      exact reset_ne_zero_cx t ht0 ht inp.milu inp.dropSum _ habs hcp.2
+
+/-- the hypotheses on `t` are satisfiable (e.g. by `|re| + |im|`; over the reals by the modulus) -/
+example : ∃ t : Cx Rat → Rat, (∀ z, 0 ≤ t z) ∧ (∀ z, t z = 0 ↔ z = 0) :=
+  ⟨fun z => |z.re| + |z.im|, fun z => by positivity, fun z => by
+    constructor
+    · intro h
+      have h1 : |z.re| = 0 := by linarith [abs_nonneg z.re, abs_nonneg z.im]
+      have h2 : |z.im| = 0 := by linarith [abs_nonneg z.re, abs_nonneg z.im]
+      cases z
+      simp only at h1 h2
+      rw [abs_eq_zero.mp h1, abs_eq_zero.mp h2]; rfl
+    · intro h; rw [h]; simp [Cx.zero_def]⟩
 
 /-- what the routine does when NO candidate row is eligible (SILU / SMILU_1): it reports the column as
 singular (`jcol+1`) WITHOUT choosing a pivot — the search for a free row of l.163-181 is not reached
